@@ -375,6 +375,69 @@ fn skip_comparable(d: &[u8]) -> bool {
     true
 }
 
+/// the two recorded shapes behind which `skip_container` and token counting differ: among the tokens `from..to` of the
+/// reference, (A) an unquoted scalar that is not an `@[…]` expression and contains `"` — the byte-level skip takes the `"`
+/// for the start of a quoted string —, (B) an `@[…]` expression whose body contains `{`, `}`, `"` or `#`.
+#[derive(Clone, Copy, PartialEq, Debug)]
+enum SkipShape { None, QuoteInUnquoted, SpecialInInterpolation }
+fn skip_shape(r: &RefLex, from: usize, to: usize) -> SkipShape {
+    let mut shape = SkipShape::None;
+    for t in r.toks[from.min(r.toks.len())..to.min(r.toks.len())].iter() {
+        if let Some(b) = t.strip_prefix("U:").and_then(unhex) {
+            let interp = b.len() >= 2 && b[0] == b'@' && b[1] == b'[';
+            if interp {
+                if b[2..].iter().any(|c| matches!(c, b'{' | b'}' | b'"' | b'#')) && shape == SkipShape::None { shape = SkipShape::SpecialInInterpolation; }
+            } else if b.contains(&b'"') { return SkipShape::QuoteInUnquoted; }
+        }
+    }
+    shape
+}
+/// independent byte-level reference of `skip_container` from offset `start` (just behind the `{`): counts braces, skips
+/// quoted strings (a backslash hides the next byte) and comments.  `Some(p)`: offset just behind the matching `}`.
+fn ref_byte_skip(d: &[u8], start: usize) -> Option<usize> {
+    let mut depth = 1i64;
+    let mut i = start;
+    while i < d.len() {
+        match d[i] {
+            b'{' => { depth += 1; i += 1; }
+            b'}' => { depth -= 1; i += 1; if depth == 0 { return Some(i); } }
+            b'"' => {
+                i += 1;
+                loop {
+                    if i >= d.len() { return None; }
+                    if d[i] == b'\\' { i += 2; if i > d.len() { return None; } } else if d[i] == b'"' { i += 1; break; } else { i += 1; }
+                }
+            }
+            b'#' => { while i < d.len() && d[i] != b'\n' { i += 1; } if i >= d.len() { return None; } i += 1; }
+            _ => i += 1,
+        }
+    }
+    None
+}
+/// what the op reports when the skip behaves like the byte-level reference: `ok <next token>` or `err:eof -`
+fn byte_skip_report(d: &[u8], start: usize) -> Option<String> {
+    match ref_byte_skip(d, start) {
+        None => Some("err:eof -".to_string()),
+        Some(p) => {
+            let rest = &d[p..];
+            if rest.first() == Some(&0xef) { return None; }
+            let r = ref_lex(rest);
+            Some(format!("ok {}", r.toks.first().cloned().unwrap_or_else(|| r.out.to_string())))
+        }
+    }
+}
+/// the kind under which a difference between the skip and token counting is reported: one of the two recorded shapes when
+/// it occurs among the skipped tokens AND the skip did exactly what the byte-level reference does; the generic kind otherwise
+fn skip_kind(generic: &'static str, r: &RefLex, d: &[u8], open_idx: usize, close_after: Option<usize>, res: &str) -> &'static str {
+    let to = close_after.unwrap_or(r.toks.len());
+    let shape = skip_shape(r, open_idx + 1, to);
+    if shape == SkipShape::None { return generic; }
+    match byte_skip_report(d, r.ends[open_idx]) {
+        Some(b) if b == res => if shape == SkipShape::QuoteInUnquoted { "skip-quote-inside-unquoted" } else { "skip-brace-inside-interpolation" },
+        _ => generic,
+    }
+}
+
 fn is_prefix(a: &[String], b: &[String]) -> bool { a.len() <= b.len() && a.iter().zip(b.iter()).all(|(x, y)| x == y) }
 fn strip_faults(steps: &[Step]) -> Vec<Step> {
     let mut v = vec![];
@@ -559,22 +622,27 @@ fn skip_oracle(kind: SkipKind, cap: &Cap, steps: &[Step], d: &[u8], k: usize, re
     let faulty = has_faults(steps);
     let words: Vec<&str> = res.split(' ').collect();
     // 1. token counting (only where the byte-level and token-level views must coincide)
-    if !faulty && kind == SkipKind::Container && skip_comparable(d) && (cap.n == 0 || cap.n >= reference.need.max(3)) {
-        match ref_skip_target(&reference, k) {
-            Some(j) => {
-                let expect = if j < reference.toks.len() { reference.toks[j].clone() } else { reference.out.replace("end", "end") };
+    let res2 = format!("{} {}", words[0], words.get(1).copied().unwrap_or("-"));
+    if !faulty && kind == SkipKind::Container && reference.out == "end" && (cap.n == 0 || cap.n >= reference.need.max(3)) {
+        // the k-th Open
+        let mut seen = 0; let mut open_idx = None;
+        for (i, t) in reference.toks.iter().enumerate() { if t == "Open" { seen += 1; if seen == k { open_idx = Some(i); break; } } }
+        match (open_idx, ref_skip_target(&reference, k)) {
+            (Some(oi), Some(j)) => {
+                let expect = if j < reference.toks.len() { reference.toks[j].clone() } else { reference.out.to_string() };
                 if words[0] != "ok" || words[1] != expect {
-                    obs.violation("skip-vs-counting", case, &format!("impl `{}` expected next token {}", res, expect));
-                }
+                    obs.violation(skip_kind("skip-vs-counting", &reference, d, oi, Some(j), &res2), case, &format!("impl `{}` expected next token {}", res, expect));
+                } else if skip_shape(&reference, oi + 1, j) != SkipShape::None { obs.count("oracle:skip-shape-benign"); }
                 obs.count("oracle:skip-counted");
             }
-            None => {
-                // no matching close (or fewer than k opens): must not report success
-                if words[0] == "ok" { obs.violation("skip-unbalanced-ok", case, res); }
+            (Some(oi), None) => {
+                // no matching close: must not report success
+                if words[0] == "ok" { obs.violation(skip_kind("skip-unbalanced-ok", &reference, d, oi, None, &res2), case, res); }
             }
+            (None, _) => { if words[0] == "ok" { obs.violation("skip-unbalanced-ok", case, res); } }
         }
     }
-    if !faulty && kind == SkipKind::Unquoted && skip_comparable(d) && (cap.n == 0 || cap.n >= reference.need.max(3)) {
+    if !faulty && kind == SkipKind::Unquoted && reference.out == "end" && (cap.n == 0 || cap.n >= reference.need.max(3)) {
         // after the k-th Unquoted: if the next token is Open, the whole container is skipped; else nothing is
         let mut seen = 0; let mut idx = None;
         for (i, t) in reference.toks.iter().enumerate() { if t.starts_with("U:") { seen += 1; if seen == k { idx = Some(i); break; } } }
@@ -591,12 +659,26 @@ fn skip_oracle(kind: SkipKind, cap: &Cap, steps: &[Step], d: &[u8], k: usize, re
                 Some(if i + 1 < reference.toks.len() { reference.toks[i + 1].clone() } else { reference.out.to_string() })
             };
             // `skip_unquoted_value` only looks through blanks: a comment between the scalar and `{` stops it
-            let comment_between = reference.toks.get(i + 1).map(|t| t == "Open").unwrap_or(false)
-                && d[reference.ends[i]..reference.ends[i + 1]].contains(&b'#');
-            let kind = if comment_between { "skipu-comment-before-brace" } else { "skipu-vs-counting" };
+            let opens = reference.toks.get(i + 1).map(|t| t == "Open").unwrap_or(false);
+            let comment_between = opens && d[reference.ends[i]..reference.ends[i + 1]].contains(&b'#');
+            // the matching close of that Open, by token counting
+            let close_after = if opens {
+                let mut depth = 0i64; let mut j = i + 1; let mut tgt = None;
+                while j < reference.toks.len() {
+                    if reference.toks[j] == "Open" { depth += 1; }
+                    if reference.toks[j] == "Close" { depth -= 1; if depth == 0 { tgt = Some(j + 1); break; } }
+                    j += 1;
+                }
+                tgt
+            } else { None };
+            let kind_of = |generic: &'static str| -> &'static str {
+                if comment_between { "skipu-comment-before-brace" }
+                else if opens { skip_kind(generic, &reference, d, i + 1, close_after, &res2) }
+                else { generic }
+            };
             match expect {
-                Some(e) => if words[0] != "ok" || words[1] != e { obs.violation(kind, case, &format!("impl `{}` expected {}", res, e)); },
-                None => if words[0] == "ok" { obs.violation(if comment_between { kind } else { "skip-unbalanced-ok" }, case, res); },
+                Some(e) => if words[0] != "ok" || words[1] != e { obs.violation(kind_of("skipu-vs-counting"), case, &format!("impl `{}` expected {}", res, e)); },
+                None => if words[0] == "ok" { obs.violation(kind_of("skip-unbalanced-ok"), case, res); },
             }
             obs.count("oracle:skipu-counted");
         }
@@ -991,6 +1073,59 @@ pub fn gen_skip(g: &mut Gen) {
     let mut rng = g.rng.clone();
     for text in [&b"foo={{bar={}}} qux=1"[..], b"color = rgb { 1 2 3 }  foo=bar", b"a={ \"}\" #}\n b=\"\\\"}\" } c", b"a={\"x\\\\\"} b", b"x={ {} {{}} } y"] {
         for k in 1..=3 { g.emit(format!("tskip 0 - {} {}", hex(text), k)); g.emit(format!("tskip 16 R1 {} {}", hex(text), k)); g.emit(format!("tskipu 16 R3 {} {}", hex(text), k)); }
+    }
+    // the two recorded shapes: `"` inside an unquoted scalar, `{ } " #` inside an `@[…]` expression — as members, keys,
+    // header values, nested, in front of and behind the container that is skipped
+    const QUOTED_IN: &[&[u8]] = &[b"b\"c", b"b\"", b"bc\"d\"e", b"b\"\"", b"x\"y z\"", b"@a\"b", b"1\"", b"b\"}", b"b\\\"c"];
+    const INTERP: &[&[u8]] = &[b"@[}]", b"@[{]", b"@[\"]", b"@[#]", b"@[ { } ]", b"@[a\"b]", b"@[}}]", b"@[ # x ]", b"@[{{]", b"@[\"x\"]", b"@[ 1 + 2 ]"];
+    const FRAMES: &[(&[u8], &[u8])] = &[
+        (b"a={ ", b" } d\n"), (b"a={ x ", b" y } d\n"), (b"a={ b={ ", b" } c } d\n"), (b"a={ ", b"=1 } d\n"), (b"a={ k=", b" } d\n"),
+        (b"", b" a={ 1 } d\n"), (b"a={ 1 } ", b" d\n"), (b"a=rgb { ", b" } d\n"), (b"a = hsv\n\t\t\t{ 1 ", b" } d\n"), (b"a={ { ", b" } { 2 } } d\n"),
+        (b"a={ \"q\" ", b" #c\n } d\n"), (b"{ ", b" }"),
+    ];
+    for (pre, post) in FRAMES {
+        for sset in [QUOTED_IN, INTERP] {
+            for sc in sset.iter() {
+                let mut d = pre.to_vec(); d.extend_from_slice(sc); d.extend_from_slice(post);
+                let r = ref_lex(&d);
+                let opens = r.toks.iter().filter(|t| *t == "Open").count();
+                let unq = r.toks.iter().filter(|t| t.starts_with("U:")).count();
+                for k in 1..=opens {
+                    g.emit(format!("tskip 0 - {} {}", hex(&d), k));
+                    g.emit(format!("tskip {} R1 {} {}", r.need.max(3), hex(&d), k));
+                    g.emit(format!("tskip {} R{} {} {}", d.len() + 2, rng.range(2, 6), hex(&d), k));
+                }
+                for k in 1..=unq.min(3) {
+                    g.emit(format!("tskipu 0 - {} {}", hex(&d), k));
+                    g.emit(format!("tskipu {} R{} {} {}", r.need.max(3) + rng.below(3), rng.range(1, 4), hex(&d), k));
+                }
+                g.count("skip:shape-frames");
+            }
+        }
+    }
+    // … and injected into generated documents: an unquoted scalar of the document replaced by one of the shapes
+    let n_inj = g.budget(150, 2500);
+    for _ in 0..n_inj {
+        let d0 = doc_text(&mut rng, false);
+        if d0.is_empty() || d0.len() > 300 { continue; }
+        let r0 = ref_lex(&d0);
+        let spans: Vec<(usize, usize)> = r0.toks.iter().enumerate().filter_map(|(i, t)| t.strip_prefix("U:").map(|h| (r0.ends[i] - h.len() / 2, r0.ends[i]))).collect();
+        if spans.is_empty() { continue; }
+        let (a, b) = *rng.pick(&spans);
+        let sc: &[u8] = if rng.chance(1, 2) { *rng.pick(QUOTED_IN) } else { *rng.pick(INTERP) };
+        let mut d = d0[..a].to_vec();
+        if rng.chance(1, 2) { d.extend_from_slice(sc); } else { d.extend_from_slice(&d0[a..b]); d.extend_from_slice(&sc[1..]); }
+        d.extend_from_slice(&d0[b..]);
+        let r = ref_lex(&d);
+        let opens = r.toks.iter().filter(|t| *t == "Open").count();
+        for k in 1..=opens.min(5) {
+            g.emit(format!("tskip 0 - {} {}", hex(&d), k));
+            let s = sched::random(&mut rng, d.len());
+            g.emit(format!("tskip {} {} {} {}", r.need.max(3) + rng.below(4), sched::show(&s), hex(&d), k));
+        }
+        let unq = r.toks.iter().filter(|t| t.starts_with("U:")).count();
+        if unq > 0 { g.emit(format!("tskipu 0 - {} {}", hex(&d), rng.range(1, unq.min(5) + 1))); }
+        g.count("skip:shape-injected");
     }
     let n = g.budget(700, 12000);
     for i in 0..n {
